@@ -11,6 +11,7 @@ pub mod c31;
 pub mod c32;
 pub mod c33;
 pub mod c40;
+pub mod c52;
 
 #[derive(Clone, Copy, Debug, PartialEq, Eq)]
 pub enum Tier {
@@ -101,6 +102,7 @@ pub fn make(id: &str) -> Option<Box<dyn Check>> {
         "C32" => Some(Box::new(c32::C32::new())),
         "C33" => Some(Box::new(c33::C33::new())),
         "C40" => Some(Box::new(c40::C40::new())),
+        "C52" => Some(Box::new(c52::C52::new())),
         _ => None,
     }
 }
